@@ -10,7 +10,8 @@ CG = 'codegen.c'
 
 def rest(P, rep):
     pu = P.unit(PP)
-    return (('R18.4', r184, (P, rep)), ('R18.5', r185, (P, rep)),
+    from .lib_c18c import r188
+    return (('R18.8', r188, (P, rep)), ('R18.4', r184, (P, rep)), ('R18.5', r185, (P, rep)),
             ('R18.6', r186_handlers, (P, pu, rep)), ('R18.6', r186_line_marker, (P, pu, rep)), ('R18.6', r186_origin, (P, pu, rep)),
             ('R18.7', r187, (P, rep)))
 
@@ -543,7 +544,7 @@ def r187(P, rep):
         f = nf[0][4]
         # first call: static counter 0 -> number 1, slot 0, terminator in slot 1
         ok = isinstance(arr, Arr) and no == 1 and len(arr.elems) >= 2 and arr.elems[0] is f and arr.elems[1] == 0
-        cnt = [v for k, v in ctx.globals.items() if str(k).startswith('static:')]
+        cnt = [v for k, v in ctx.globals.items() if str(k).startswith('static:') and not isinstance(v, (Obj, Arr, View))]      # the counter, not a table kept beside it
         ok = ok and cnt == [1]
         rep.ob('R18.7', '%s:%s:file-registered-under-its-number' % (T, fn), bool(ok),
                'the first file gets number %r and the file table is %r with counter %r afterwards (expected number 1, table [file, NULL], counter 1): .file entries and .loc file numbers do not match' % (no, getattr(arr, 'elems', arr), cnt), where=W, facts={'path': ctx.trail})
